@@ -3,11 +3,8 @@
    says, and every history of the translated operations executed by the generated methods is the history
    of the specification machine (ListMachine.lstep_spec).  Not part of the common build: compiled by
    ./check C01.
-   Proved here or in GenSeq.v: array toZeroBased GetValue SetValue GetValues GetSize IsEmpty AsArray
-   GetIterator, Array.Make; list toNormalized validateSlot GetValue GetValues SetValue InsertValue RemoveValue
-   RemoveAll GetSize IsEmpty AsArray GetIterator GetClass.  Translated and swept (GenSweep.v) but without a
-   lemma yet: array/list SetValues, list AppendValue AppendValues InsertValues RemoveValues. *)
-From Verif Require Import Base Seq ListImpl ListMachine SeqProofs MiniGo GenSrc GenRep GenLib GenIter GenSeq.
+   The lemmas about the single methods are in GenSeq.v (shared with C13) and GenList.v. *)
+From Verif Require Import Base Seq ListImpl ListMachine SeqProofs MiniGo GenSrc GenRep GenLib GenIter GenSeq GenList GenList2.
 
 Set Warnings "-unused-intro-pattern".
 Section GenC01.
@@ -17,66 +14,6 @@ Variable eqb : A -> A -> bool.
 Variable ext : ident -> ident -> val A -> list (val A) -> option (val A).
 Notation call_at F := (i_call (interp_at A zero ext prog F)).
 Notation run_method := (MiniGo.run_method A zero ext prog).
-
-(* ---------- array.GetValues(first, last): v[first : last+1] copied into a fresh array ---------- *)
-Lemma zsub_elems (l : list A) (lo hi : Z) : (0 <= lo <= hi)%Z -> (hi <= Z.of_nat (length l))%Z ->
-  zsub A (elems l) lo hi = Some (elems (firstn (Z.to_nat (hi - lo)) (skipn (Z.to_nat lo) l))).
-Proof.
-  intros H1 H2. unfold zsub. rewrite elems_length.
-  destruct (Z.ltb_spec lo 0); [lia|]. destruct (Z.ltb_spec hi lo); [lia|].
-  destruct (Z.ltb_spec (Z.of_nat (length l)) hi); [lia|]. cbn [orb].
-  rewrite elems_skipn, elems_firstn. reflexivity.
-Qed.
-
-Lemma zsub_none (l : list (val A)) (lo hi : Z) : (hi < lo \/ Z.of_nat (length l) < hi)%Z -> zsub A l lo hi = None.
-Proof.
-  intros H. unfold zsub. destruct (Z.ltb_spec lo 0); [reflexivity|]. destruct (Z.ltb_spec hi lo); [reflexivity|].
-  destruct (Z.ltb_spec (Z.of_nat (length l)) hi); [reflexivity|lia].
-Qed.
-
-Lemma zcopy_exact (z : val A) (src : list (val A)) : zcopy A (repeat z (length src)) src = src.
-Proof.
-  unfold zcopy. rewrite repeat_length, firstn_all.
-  rewrite skipn_all2 by (rewrite repeat_length; lia). apply app_nil_r.
-Qed.
-
-Lemma gen_array_GetValues l i j F : (Z.of_nat (length l) < two63)%Z -> 30 <= F ->
-  call_at F (arr_val l) id_GetValues [VInt i; VInt j] =
-  match get_values l i j with Ret r => ROk (arr_val r, arr_val l) | _ => RPanic end.
-Proof.
-  intros HL HF. rewrite <- (get_values_refines A l i j). unfold get_values_impl.
-  fuel F 30. gocall. rewrite (gen_toZeroBased A zero ext) by lia.
-  pose proof (pos_some (length l) i) as Pi. destruct (pos (length l) i) as [a|]; [|reflexivity]. specialize (Pi a eq_refl).
-  gorun. rewrite (gen_toZeroBased A zero ext) by lia.
-  pose proof (pos_some (length l) j) as Pj. destruct (pos (length l) j) as [b|]; [|reflexivity]. specialize (Pj b eq_refl).
-  gorun. destruct (Nat.ltb_spec (b + 1) a) as [Hba|Hba].
-  - rewrite zsub_none by lia. reflexivity.
-  - rewrite zsub_elems by lia. gogo.
-    replace (Z.to_nat (Z.of_nat b + 1 - Z.of_nat a)) with (b + 1 - a) by lia.
-    replace (Z.to_nat (Z.of_nat b - Z.of_nat a + 1)) with (b + 1 - a) by lia.
-    rewrite Nat2Z.id.
-    set (r := firstn (b + 1 - a) (skipn a l)).
-    assert (LR : length (elems r) = b + 1 - a).
-    { rewrite elems_length. unfold r. rewrite firstn_length, skipn_length. lia. }
-    rewrite <- LR at 1. rewrite zcopy_exact. gorun. reflexivity.
-Qed.
-
-(* ---------- list.go: delegation ---------- *)
-Lemma gen_list_GetValues n l i j F : (Z.of_nat (length l) < two63)%Z -> 36 <= F ->
-  call_at F (lst_val n l) id_GetValues [VInt i; VInt j] =
-  match get_values l i j with Ret r => ROk (arr_val r, lst_val n l) | _ => RPanic end.
-Proof.
-  intros HL HF. fuel F 36. gocall. rewrite gen_array_GetValues by lia.
-  destruct (get_values l i j); gorun; reflexivity.
-Qed.
-
-Lemma gen_list_SetValue n l i a F : 26 <= F ->
-  call_at F (lst_val n l) id_SetValue [VInt i; VElem a] =
-  match set_value l i a with Ret l' => ROk (VTuple [], lst_val n l') | _ => RPanic end.
-Proof.
-  intros HF. unfold set_value. fuel F 26. gocall. rewrite (gen_array_SetValue A zero ext) by lia.
-  destruct (pos (length l) i); gorun; reflexivity.
-Qed.
 
 (* ---------- histories of the translated operations ---------- *)
 (* the operations of ListMachine.lop whose generated code is proved above *)
@@ -118,13 +55,13 @@ Definition same_obs (v : val A) (ob : lobs A) : Prop :=
 Lemma gen_lstep n l o F :
   translated o = true -> (Z.of_nat (length l) + 1 < two63)%Z -> length l + 100 <= F ->
   match snd (lstep_spec zero eqb l o) with
-  | LPanic => run_method F (lst_val n l) (fst (gen_lop o)) (snd (gen_lop o)) = Panic
+  | LPanic => call_at F (lst_val n l) (fst (gen_lop o)) (snd (gen_lop o)) = RPanic (lst_val n l)
   | LHang => False
-  | ob => exists v, run_method F (lst_val n l) (fst (gen_lop o)) (snd (gen_lop o)) =
-                    Ret (v, lst_val n (fst (lstep_spec zero eqb l o))) /\ same_obs v ob
+  | ob => exists v, call_at F (lst_val n l) (fst (gen_lop o)) (snd (gen_lop o)) =
+                    ROk (v, lst_val n (fst (lstep_spec zero eqb l o))) /\ same_obs v ob
   end.
 Proof.
-  intros T HL HF. unfold MiniGo.run_method, MiniGo.call_at.
+  intros T HL HF.
   destruct o; try discriminate T; cbn [gen_lop fst snd lstep_spec].
   - (* InsertValue *)
     rewrite (gen_list_InsertValue_impl A zero ext) by lia. rewrite (insert_value_refines A zero).
@@ -172,16 +109,16 @@ Proof.
   - cbn. lia.
 Qed.
 
-(* run a history with the generated methods: the list object and the observations (a panicking call
-   leaves the list as it was: the specification says so, C01_panic_frame, and MiniGo's Panic carries no state) *)
+(* run a history with the generated methods: the list object and the observations; the history goes on from
+   the receiver as each call left it, also after a panic (a MiniGo panic carries the receiver at that point) *)
 Fixpoint gen_lrun (F : nat) (recv : val A) (ops : list (lop A)) : option (val A * list (out (val A))) :=
   match ops with
   | [] => Some (recv, [])
   | o :: rest =>
-    match run_method F recv (fst (gen_lop o)) (snd (gen_lop o)) with
-    | Ret (v, recv') => option_map (fun r => (fst r, Ret v :: snd r)) (gen_lrun F recv' rest)
-    | Panic => option_map (fun r => (fst r, Panic :: snd r)) (gen_lrun F recv rest)
-    | Hang => None
+    match call_at F recv (fst (gen_lop o)) (snd (gen_lop o)) with
+    | ROk (v, recv') => option_map (fun r => (fst r, Ret v :: snd r)) (gen_lrun F recv' rest)
+    | RPanic recv' => option_map (fun r => (fst r, Panic :: snd r)) (gen_lrun F recv' rest)
+    | _ => None
     end
   end.
 Definition agrees (g : out (val A)) (ob : lobs A) : Prop :=
@@ -212,7 +149,7 @@ Proof.
     destruct (lrun (lstep_spec zero eqb) l' rest) as [lf obs] eqn:ER. cbn [fst snd] in *.
     destruct ob; try (destruct ST as [v [ER' SO]]; rewrite ER', EG; cbn [option_map fst snd];
                       eexists; split; [reflexivity|constructor; [exact SO|exact FA]]).
-    + (* panic: the specification leaves the list unchanged *)
+    + (* panic: the generated call and the specification both leave the list unchanged *)
       rewrite ST. assert (l' = l) by (apply (C01_panic_frame A zero eqb l o); exact EL). subst l'.
       rewrite EG. cbn [option_map fst snd]. eexists; split; [reflexivity|constructor; [exact I|exact FA]].
     + destruct ST.
@@ -266,6 +203,40 @@ Proof.
   - destruct (length l <? slot); reflexivity.
 Qed.
 
+(* the range and bulk methods; the operand [sv] is any sequence that answers like [src] (seq_operand: an Array or a
+   List holding src, for instance the receiver itself) *)
+Theorem C01_gen_bulk_methods_compute_the_specification :
+  forall (A : Type) (zero : A) (ext : ident -> ident -> val A -> list (val A) -> option (val A))
+         (n : val A) (l : list A) (slot : nat) (i j : Z) (a : A) (sv : val A) (src : list A) (F : nat),
+    seq_operand A zero ext sv src ->
+    (Z.of_nat (length l + length src) + 1 < two63)%Z -> (Z.of_nat slot < two63)%Z ->
+    2 * (length l + length src) + 200 <= F ->
+    let run := run_method A zero ext prog F (lst_val n l) in
+    run id_SetValues [VInt i; sv] = match set_values l i src with Ret l' => Ret (VTuple [], lst_val n l') | _ => Panic end /\
+    run id_AppendValue [VElem a] = Ret (VTuple [], lst_val n (append_value l a)) /\
+    run id_AppendValues [sv] = Ret (VTuple [], lst_val n (append_values l src)) /\
+    run id_InsertValues [VInt (Z.of_nat slot); sv] =
+      match insert_values l slot src with Ret l' => Ret (VTuple [], lst_val n l') | _ => Panic end /\
+    run id_RemoveValues [VInt i; VInt j] =
+      match remove_values l i j with Ret (r, l') => Ret (arr_val r, lst_val n l') | _ => Panic end /\
+    (* and a call that panics leaves the list as it was *)
+    (set_values l i src = Panic -> panic_state A zero ext prog F (lst_val n l) id_SetValues [VInt i; sv] = Some (lst_val n l)) /\
+    (insert_values l slot src = Panic ->
+     panic_state A zero ext prog F (lst_val n l) id_InsertValues [VInt (Z.of_nat slot); sv] = Some (lst_val n l)) /\
+    (remove_values l i j = Panic -> panic_state A zero ext prog F (lst_val n l) id_RemoveValues [VInt i; VInt j] = Some (lst_val n l)).
+Proof.
+  intros A zero ext n l slot i j a sv src F OP HL HSl HF run. unfold run, run_method, panic_state, call_at.
+  rewrite (gen_list_SetValues A zero ext n l i sv src), gen_list_AppendValue, (gen_list_AppendValues A zero ext n l sv src),
+    (gen_list_InsertValues A zero ext n l slot sv src), gen_list_RemoveValues by (assumption || lia).
+  repeat split.
+  - destruct (set_values l i src); reflexivity.
+  - destruct (insert_values l slot src); reflexivity.
+  - destruct (remove_values l i j) as [[r l']| |]; reflexivity.
+  - intros E. rewrite E. reflexivity.
+  - intros E. rewrite E. reflexivity.
+  - intros E. rewrite E. reflexivity.
+Qed.
+
 (* the history theorem (C01_history_refinement) for the generated methods, on the translated operations *)
 Theorem C01_gen_history_refinement :
   forall (A : Type) (zero : A) (eqb : A -> A -> bool)
@@ -277,6 +248,19 @@ Theorem C01_gen_history_refinement :
       gen_lrun A zero ext F (lst_val n l) ops = Some (lst_val n (fst (lrun (lstep_spec zero eqb) l ops)), gobs) /\
       Forall2 (agrees A) gobs (snd (lrun (lstep_spec zero eqb) l ops)).
 Proof. exact gen_lrun_refines. Qed.
+
+(* a generated call that panics leaves the list / array object exactly as it was *)
+Theorem C01_gen_panic_leaves_unchanged :
+  forall (A : Type) (zero : A) (eqb : A -> A -> bool)
+         (ext : ident -> ident -> val A -> list (val A) -> option (val A))
+         (n : val A) (l : list A) (o : lop A) (F : nat),
+    translated A o = true -> (Z.of_nat (length l) + 1 < two63)%Z -> length l + 100 <= F ->
+    snd (lstep_spec zero eqb l o) = LPanic ->
+    panic_state A zero ext prog F (lst_val n l) (fst (gen_lop A o)) (snd (gen_lop A o)) = Some (lst_val n l).
+Proof.
+  intros A zero eqb ext n l o F T HL HF E. pose proof (gen_lstep A zero eqb ext n l o F T HL HF) as ST.
+  rewrite E in ST. unfold panic_state, call_at. rewrite ST. reflexivity.
+Qed.
 
 (* non-vacuity: on [10;20;30]: insert 5 at slot 1, remove index -1 (30), get index 2 (5), set index 9 (panics),
    range (2,3), size — run by the generated methods *)
@@ -290,4 +274,6 @@ Proof. split; vm_compute; reflexivity. Qed.
 
 Print Assumptions C01_gen_array_methods_compute_the_specification.
 Print Assumptions C01_gen_list_methods_compute_the_specification.
+Print Assumptions C01_gen_bulk_methods_compute_the_specification.
 Print Assumptions C01_gen_history_refinement.
+Print Assumptions C01_gen_panic_leaves_unchanged.
